@@ -1,5 +1,5 @@
 (* Server4Examples.v — concrete runs showing the hypotheses of the C11/C13/C15 theorems are met *)
-From Verif Require Import Base Net Msg4 Server4 Server4Run Server4Proofs.
+From Verif Require Import Base Net Msg4 Chain ChainProofs Server4 Server4Run Server4Proofs.
 Open Scope N_scope.
 
 Definition ex_req : msg4 :=
